@@ -15,7 +15,7 @@
   `next`, only elements and documents have children) — except `element_unwrap`, whose `unwrap`
   on `last_child` needs the child ordering of the full invariant.
 -/
-import XotModel.Lemmas.FatomC06
+import XotModel.Lemmas.FatomAll
 
 namespace XotModel.Props
 open XotModel
@@ -356,6 +356,76 @@ theorem C06_corrupt_unreachable_setElementName (f : Forest) (n name : Nat) (hi :
   (C06_setElementName f n name hi).notCorrupt hi.notCorrupt
 
 
+/-- `text_content_mut(n)` + `set(s)`: refused with the forest unchanged, or carried out: on an
+    element without normal children the fresh text node is appended and found again as the first
+    child, so neither `unwrap` panics. -/
+theorem C06_textContentSet (f : Forest) (s : Str) (n : Nat) (hi : f.Inv) (_hn : f.isLive n = true) :
+    Forest.C06Clauses f (f.textContentSet n s) :=
+  Forest.clauses_of_outcome hi.notCorrupt (Forest.textContentSet_outcome hi.toW n s)
+
+theorem C06_textContentSet_atomic (f : Forest) (s : Str) (n : Nat) (e : XotError) (hi : f.Inv)
+    (_hn : f.isLive n = true) (h : (f.textContentSet n s).2 = .err e) : (f.textContentSet n s).1 = f :=
+  (C06_textContentSet f s n hi _hn).atomic e h
+
+theorem C06_no_panic_textContentSet (f : Forest) (s : Str) (n : Nat) (hi : f.Inv)
+    (_hn : f.isLive n = true) : (f.textContentSet n s).2 ≠ .panic :=
+  (C06_textContentSet f s n hi _hn).noPanic
+
+theorem C06_corrupt_unreachable_textContentSet (f : Forest) (s : Str) (n : Nat) (hi : f.Inv)
+    (_hn : f.isLive n = true) : (f.textContentSet n s).1.corrupt = false :=
+  (C06_textContentSet f s n hi _hn).notCorrupt
+
+/-- `clone_node` of a live node returns a node: none of the `any_append(..).unwrap()` calls of the
+    edge replay fails, and the scratch element has a first child. -/
+theorem C06_no_panic_cloneNode (f : Forest) (n : Nat) (hi : f.Inv) (hn : f.isLive n = true) :
+    (f.cloneNode n).2 ≠ none :=
+  (Forest.cloneNode_spec hi hn).1
+
+/-- ... and stays inside the list semantics: the scratch element spliced out at the end is a
+    root with exactly one child. -/
+theorem C06_corrupt_unreachable_cloneNode (f : Forest) (n : Nat) (hi : f.Inv)
+    (hn : f.isLive n = true) : (f.cloneNode n).1.corrupt = false :=
+  (Forest.cloneNode_spec hi hn).2
+
+theorem C06_corrupt_unreachable_removeInsignificantWhitespace (f : Forest) (n : Nat) (hi : f.Inv) :
+    (f.removeInsignificantWhitespace n).corrupt = false := by
+  rw [(Forest.removeInsignificantWhitespace_spec hi.toW n).2]; exact hi.notCorrupt
+
+/-! ## The property for every call at once
+
+`Forest.Call` (Model/FatomSpec.lean) lists the calls of the mutating API with their arguments,
+`Call.run` is the model's transition, `Call.liveArgs` says that all node arguments are live,
+`Call.documentedPanic` is the documented panic of the element-only accessors on a non-element. -/
+
+/-- ⟦C06_atomic⟧ A call that returns an error has changed nothing. -/
+theorem C06_atomic (f : Forest) (c : Forest.Call) (e : XotError) (hi : f.Inv) (hl : c.liveArgs f)
+    (h : (c.run f).2 = .err e) : (c.run f).1 = f := by
+  rcases Forest.call_clauses hi c hl with ⟨_, h'⟩ | ⟨_, h'⟩
+  · exact h'.atomic e h
+  · rw [h']
+
+/-- ⟦C06_nopanic⟧ The only panics are the documented ones, and they change nothing. -/
+theorem C06_nopanic (f : Forest) (c : Forest.Call) (hi : f.Inv) (hl : c.liveArgs f)
+    (h : (c.run f).2 = .panic) : c.documentedPanic f = true ∧ (c.run f).1 = f := by
+  rcases Forest.call_clauses hi c hl with ⟨_, h'⟩ | ⟨h1, h'⟩
+  · exact absurd h h'.noPanic
+  · exact ⟨h1, by rw [h']⟩
+
+/-- The documented panic does happen (so `C06_nopanic` is an equivalence). -/
+theorem C06_documentedPanic (f : Forest) (c : Forest.Call) (hi : f.Inv) (hl : c.liveArgs f)
+    (h : c.documentedPanic f = true) : (c.run f).2 = .panic := by
+  rcases Forest.call_clauses hi c hl with ⟨h1, _⟩ | ⟨_, h'⟩
+  · rw [h1] at h; cases h
+  · rw [h']
+
+/-- ⟦C06_corrupt_unreachable⟧ No call with live arguments uses an indextree primitive outside
+    its list semantics. -/
+theorem C06_corrupt_unreachable (f : Forest) (c : Forest.Call) (hi : f.Inv) (hl : c.liveArgs f) :
+    (c.run f).1.corrupt = false := by
+  rcases Forest.call_clauses hi c hl with ⟨_, h'⟩ | ⟨_, h'⟩
+  · exact h'.notCorrupt
+  · rw [h']; exact hi.notCorrupt
+
 /-! ### Non-vacuity: a concrete forest satisfying the invariant, with refused and accepted calls -/
 
 /-- `<doc><e xmlns:p=".." a="v">x</e></doc>` plus an unattached comment. -/
@@ -379,5 +449,10 @@ example : (C06_sample.elementUnwrap 1).2 = .ok := by decide
 /-- the documented panic -/
 example : (C06_sample.mapInsert .attributes 4 (.attribute 9 [])).2 = .panic := by decide
 example : (C06_sample.mapInsert .attributes 1 (.attribute 9 [])).2 = .ok := by decide
+example : (C06_sample.textContentSet 1 ['y']).2 = .ok := by decide
+example : (C06_sample.cloneNode 5).2 = some 6 := by decide
+example : (({ roots := [.node 0 (.element 1) [.node 1 (.comment ['a']) []]], next := 2 } : Forest).cloneNode 0).2 = some 3 := by decide
+example : (Forest.Call.replace 4 5).liveArgs C06_sample := by
+  intro x hx; simp [Forest.Call.args] at hx; rcases hx with h | h <;> subst h <;> decide
 
 end XotModel.Props
